@@ -11,9 +11,10 @@ import (
 // Ctx is the verification context for one function under contract: SMT
 // declarations, definitional facts, obligations.
 type Ctx struct {
+	pureAxioms map[string]bool // pure functions whose ensures axiom has been emitted in this context
 	// clFrame: heap arrays introduced by a call or a loop head together with the frame fact assumed about them:
 	// every object allocated before (the call / the loop) other than refs has the content it has in old
-	clFrame map[string]clInfo
+	clFrame      map[string]clInfo
 	extraEffects map[string]bool // discovery: heaps written by callees whose sort this context does not know
 	eng          *Engine
 	decls        []string
